@@ -48,6 +48,13 @@ register("C19", "gaps_coverage_f1_vs_oracles", "c19_gaps.py", "5 cones x 10 latt
          covers=("C19/get_smallmij[", "C19/get_delta[", "C19/utils.is_covered[", "C19/get_uncovered_size", "C19/epsilonF1["))
 register("C14", "updates_vs_closed_form", "c14_update.py", "120 random design-space updates (subsets, scale forms, both region kinds) and 200 iterative intersections, m in {2,3}",
          covers=("C14/FixedPointsDesignSpace.update[", "C14/Rect.update[", "C14/Rect.intersect[", "C14/Ell.update[", "C14/hyperrectangle_check_intersection["))
+_ALGOS = ("PaVeBa", "PaVeBaGP", "PaVeBaPartialGP", "VOGP", "VOGP_AD", "EpsilonPAL", "Auer")
+register("C02", "discarding_history_independence", "c02_c03_histories.py C02",
+         "7 algorithms x 2 cones x rectangle/ellipsoid regions x 3 histories of 4 rounds on 5 designs: discarding() on a long-lived object vs an object holding only the declared state (real region predicates)",
+         covers=tuple("C02/%s.discarding" % a for a in _ALGOS) + tuple("C02/%s.compute_pessimistic_set" % a for a in _ALGOS))
+register("C03", "promotion_history_independence", "c02_c03_histories.py C03",
+         "7 algorithms x 2 cones x rectangle/ellipsoid regions x 3 histories of 4 rounds on 5 designs: pareto_updating / epsiloncovering / useful_updating on a long-lived object vs an object holding only the declared state",
+         covers=tuple("C03/%s.%s" % (a, m) for a in _ALGOS for m in ("pareto_updating", "epsiloncovering", "useful_updating")))
 
 
 def run_for(prop, seed, tier="thorough", only=None):
